@@ -11,6 +11,7 @@ import Driver.C17
 import Driver.C12
 import Driver.C20
 import Driver.C16
+import Driver.C07
 
 def main (args : List String) : IO UInt32 := do
   match args with
@@ -27,4 +28,5 @@ def main (args : List String) : IO UInt32 := do
   | ["c12"] => Driver.C12.run; return 0
   | ["c20"] => Driver.C20.run; return 0
   | ["c16"] => Driver.C16.run; return 0
+  | ["c07"] => Driver.C07.run; return 0
   | _ => IO.eprintln "usage: bufmodel <property-protocol>"; return 2
